@@ -79,6 +79,20 @@ let status_case (line : string) : string =
       let (k, m1) = addrxlat2kdump (s32 s) in
       let (a, m2) = kdump2addrxlat (u32 s) in
       Printf.sprintf "%s %s %s %s" (hexu (u32 k)) (flag m1) (hex_of_z a) (flag m2)
+  | 'X' ->
+      (* message crossing the boundary: the receiving chain is chain_step old text, byte for byte,
+         and the sending context is cleared *)
+      (match split_on ':' line with
+       | [_; st; text; old] ->
+           let s = z_of_hex st in
+           let tb = bytes_of_hex text and ob = bytes_of_hex old in
+           let (k, m1) = addrxlat2kdump (s32 s) in
+           let (a, m2) = kdump2addrxlat (u32 s) in
+           let up = if m1 then ErrSpec.chain_step ob tb else ob in
+           let down = if m2 then ErrSpec.chain_step ob tb else ob in
+           let hx l = if l = [] then "-" else hex_of_bytes l in
+           Printf.sprintf "%s %s 0 %s %s 0" (hexu (u32 k)) (hx up) (hex_of_z a) (hx down)
+       | _ -> failwith "bad X")
   | 'O' ->
       let rs = Stdlib.List.map (fun t -> let s = z_of_hex t in (s, s <> BinNums.Z0))
                  (split_on ',' (after_colon line)) in
@@ -111,7 +125,7 @@ let statusspec_case (line : string) : string =
       (match c.[0], f with
        | 'S', [k; m1; a; m2] ->
            let s = z_of_hex (after_colon c) in
-           let in_k = int_of_z s >= -9 && int_of_z s <= 6 in
+           let in_k = addrxlat_doc s in
            let in_a = int_of_z s >= 0 && int_of_z s <= 9 in
            let r1 = if in_k then judge "addrxlat2kdump" (pair k m1) else "ok" in
            if r1 <> "ok" then r1
@@ -120,6 +134,19 @@ let statusspec_case (line : string) : string =
               if addrxlat_doc az && ((az <> BinNums.Z0) = (m2 = "1")) then "ok"
               else "kdump2addrxlat returns " ^ a ^ " msg=" ^ m2)
            else "ok"
+       | 'X', [_; up; xl; _; down; kl] ->
+           (* the chain spec across the boundary: the receiver gets chain_step old text byte for byte,
+              the sender's string is cleared *)
+           (match split_on ':' c with
+            | [_; st; text; old] ->
+                let tb = bytes_of_hex text and ob = bytes_of_hex old in
+                let want = if z_of_hex st = BinNums.Z0 then ob else ErrSpec.chain_step ob tb in
+                let hx l = if l = [] then "-" else hex_of_bytes l in
+                if up <> hx want then "addrxlat2kdump: the message arrives altered: got " ^ up ^ " expected " ^ hx want
+                else if down <> hx want then "kdump2addrxlat: the message arrives altered: got " ^ down ^ " expected " ^ hx want
+                else if xl <> "0" || kl <> "0" then "the sending context keeps its error string"
+                else "ok"
+            | _ -> "malformed X case")
        | 'O', st :: m :: _ -> judge "open (probe loop)" (pair st m)
        | 'V', st :: m :: _ -> judge "setting linux.vmcoreinfo.raw" (pair st m)
        | 'P', st :: m :: _ ->
